@@ -4,14 +4,15 @@
    re-dumping reproduces the same text (idempotent normalisation); for WHOLE GRIDS - metadata-free 3.0 grids, 3.0 grids
    with grid and column metadata over every kind but date-times (lists, dicts and nested grids included), and 2.0 grids
    with metadata - both formats read back the same grid that was written (C07_grid_both_formats, _general, _2_0).
-   PARTIAL: date-times (the known finding lives there: an offset no zone maps to) and float payloads (the JSON six-decimal
+   A date-time in a named zone is read as the same raw text and zone name from both formats (C07_datetime_both_formats).
+   PARTIAL: zone-less date-times (the known finding lives there: an offset no zone maps to) and float payloads (the JSON six-decimal
    rule) are decided by the tie and the search on the implementation.  Purity needs no theorem in a functional model:
    zdump / jdump are functions of the value, so two dumps of one value are identical and nothing is modified - that
    part is checked on the implementation (deep snapshot before / after, two dumps compared) by harness/props/c07.py. *)
 From Coq Require Import String.
 From Coq Require Import List NArith Bool Lia.
 From HS Require Import Base.Prelude Model.Value Model.Escape Model.Version Model.Json Model.ZincDump Model.ZincParse.
-From HS Require Import Proofs.EscapeP Proofs.JsonP Proofs.ZincParseP Proofs.ZincDumpP Proofs.ZincNumP Proofs.ZincListP Proofs.ZincGridP Proofs.ZincDictP Proofs.ZincMetaP Proofs.ZincNestP Proofs.JsonGridP Proofs.JsonNestP Proofs.JsonReadP Proofs.JsonVerP Proofs.ZincV2P Proofs.ZincMeta2P.
+From HS Require Import Proofs.EscapeP Proofs.JsonP Proofs.ZincParseP Proofs.ZincDumpP Proofs.ZincNumP Proofs.ZincListP Proofs.ZincGridP Proofs.ZincDictP Proofs.ZincMetaP Proofs.ZincNestP Proofs.JsonGridP Proofs.JsonNestP Proofs.JsonReadP Proofs.JsonVerP Proofs.ZincV2P Proofs.ZincMeta2P Proofs.ZincDateP Proofs.ZincDateTimeP.
 Import ListNotations.
 Open Scope N_scope.
 
@@ -177,6 +178,25 @@ Proof.
       apply IH. lia.
 Qed.
 
+(* DATE-TIMES IN BOTH FORMATS: a date-time in a named zone is written by either writer with the same ISO text and zone
+   name, and both readers hand on exactly that text and name (what they denote is the iso8601 / pytz oracle): the ZINC
+   reading and the JSON reading of one written date-time are the same value *)
+Theorem C07_datetime_both_formats : forall f g v3 pre3 y m d h mi s us off zn sg hh mm,
+  iso_offset off = off_text sg hh mm -> dt_ok y m d h mi s us sg hh mm -> tzname_ok zn ->
+  whole_minutes off -> zn <> [] -> forallb is_tzname_char zn = true ->
+  let w := VDateTime y m d h mi s us off (ZName zn) in
+  let raw := VDateTimeRaw (iso_datetime y m d h mi s us off) (Some zn) in
+  (exists t, zdump (S f) false w = Ok t /\ forall rest, delim rest -> p_scalar (S g) v3 (t ++ rest) = Some (Ok raw, rest)) /\
+  (exists j, jdump_scalar pre3 w = Ok (JStr j) /\ jparse_str pre3 j = Ok raw).
+Proof.
+  intros f g v3 pre3 y m d h mi s us off zn sg hh mm Eo Hok Hz Hw Hne Hc w raw. split.
+  - exists (iso_datetime y m d h mi s us off ++ 32 :: zn)%list. split; [reflexivity|]. intros rest Hd.
+    apply (datetime_written_read f g v3 y m d h mi s us off zn sg hh mm _ rest Eo Hok Hz Hd). reflexivity.
+  - exists (116 :: 58 :: iso_datetime y m d h mi s us off ++ 32 :: zn)%list. split; [reflexivity|].
+    destruct Hok as [Hv [[Hh [Hm [Hs Hu]]] _]]. destruct (date_bounds y m d Hv) as [By [Bm Bd]].
+    apply rt_datetime; try assumption; lia.
+Qed.
+
 Example C07_grid_nonvacuous :
   let names := [s_ "a"; s_ "b"] in
   let rows := [[VStr (s_ "x"); VList [VMarker; VBool true]]; [VNull; VUri (s_ "u")]] in
@@ -204,6 +224,7 @@ Qed.
 Print Assumptions C07_grid_both_formats.
 Print Assumptions C07_grid_both_formats_general.
 Print Assumptions C07_grid_both_formats_2_0.
+Print Assumptions C07_datetime_both_formats.
 Print Assumptions C07_json_leg_nested.
 Print Assumptions C07_json_normalisation_idempotent_nested.
 Print Assumptions C07_zinc_leg.
